@@ -223,7 +223,8 @@ def run(shard, ctx):
             ctx.case(("ctor",) + rep, nt, sample={"cmd": c.name, "table": setname, "args": a, "dataout": bytes(cmd.dataout)} if ctx.want_sample() else None)
             ctx.count("lists_parsed")
             dev = harness.Recorder(getattr(E, setname))
-            s = harness.make_facade(dev)
+            # (the facade with and without a block size of its own: the parameter list is the caller's, whatever the facade knows)
+            s = harness.make_facade(dev, (0, 512, 4096)[i % 3])
             try:
                 harness.facade_call(c, s, DO.fresh(a))
             except Exception as e:  # noqa: BLE001
